@@ -131,7 +131,7 @@ EvalEv ==
   /\ LET r == T.r IN
      /\ Checks(<< <<mode = "exec" /\ ~done, "PROTO-eval-outside-exec">>,
                   <<r \in Names, "PROTO-unknown-rule">>,
-                  <<r \in Names => ~rules[r].del, "C01-removed-rule-evaluated">>,
+                  <<r \in Names => ~rules[r].del, "C16-removed-rule-evaluated">>,
                   <<r \notin retracted, "C10-retracted-rule-evaluated">>,
                   <<T.n = cyc + 1, "C06-eval-cycle-number">>,
                   <<r \notin evald, "C06-evaluated-twice">>,
